@@ -37,6 +37,7 @@ import seqcheck
 SPEC = {
     "prop": "C15",
     "lean_targets": ["InfernoVerif.Props.C15", "InfernoVerif.Props.C15b"],
+    "driver_targets": ["InfernoVerif.Model.Lifecycle", "InfernoVerif.Drv.Proto"],
     "prop_files": ["InfernoVerif/Props/C15.lean", "InfernoVerif/Props/C15b.lean"],
     "lemma_files": ["InfernoVerif/Lemmas/Lifecycle.lean", "InfernoVerif/Lemmas/Lifecycle2.lean"],
     "model_files": ["InfernoVerif/Model/Lifecycle.lean"],
